@@ -654,7 +654,9 @@ def vary(draw, pd, body, how=None, customs=None):
             if cc and (how_forced or draw(st.integers(0, 3)) > 0):
                 cands = cc
             path, i = draw(st.sampled_from(cands))
-            v1, v2 = draw(st.sampled_from([(-1, -2), (-2, -1), (-1.0, -2.0), (-1, -2), (1, -1), (2.0, 2.5)]))
+            # ... or two values that agree to six significant figures (what '%g' prints) and differ beyond
+            v1, v2 = draw(st.sampled_from([(-1, -2), (-2, -1), (-1.0, -2.0), (1.2345671, 1.2345674), (-1, -2), (1, -1), (2.0, 2.5),
+                                           (1.388773, 1.388774)]))
             _leaf_at(orig, path)["p"] = list(_leaf_at(orig, path)["p"])
             _leaf_at(orig, path)["p"][i] = v1
             _leaf_at(pd, path)["p"] = list(_leaf_at(orig, path)["p"])
